@@ -143,11 +143,11 @@ def run(ctx, rep):
                 if f is not None and f is not TOP and fact_match(f, "cmp", "^Eq$", "samples_written|NonZero::get", "samples_written|NonZero::get"):
                     S.add(bi)
                 for s in bl["s"]:
-                    if s["d"]["p"] == ["*"] and s["rv"]["r"] == "use":
-                        rp = root_place(b, {"l": s["d"]["l"], "p": []})
-                        if "total_samples" in place_fields(rp):
-                            org = origins(b, s["rv"]["o"])
-                            if any(k == "agg" and x["var"] == "Some" for k, x in org):
+                    if s["d"]["p"] and s["rv"]["r"] in ("use", "agg"):
+                        rp = root_place(b, s["d"])
+                        if place_fields(rp or {"p": []})[-1:] == ["total_samples"]:
+                            org = origins(b, s["rv"]["o"]) if s["rv"]["r"] == "use" else [("agg", s["rv"])]
+                            if any(k == "agg" and x.get("var") == "Some" for k, x in org):
                                 S.add(bi)
             rep.check("C09.order", "sample count is checked against the declared total, or recorded, before the header rewrite", bool(S) and must_pass(b, W, S), loc_of(b),
                       "%d gate blocks" % len(S), "the final write_blocks is reachable without comparing/storing samples_written")
